@@ -5,14 +5,14 @@ import numpy as np, pandas as pd
 from core import Result
 import proto, gen, implutil
 
-THEOREMS = ['C14_fit_no_stale_state', 'C14_shorthand', 'C14_reduce']
+THEOREMS = ['C14_fit_no_stale_state', 'C14_shorthand', 'C14_reduce', 'C14_history_independence', 'C14_settings_history', 'C14_edges', 'C14_attr', 'C14_failed_fit', 'C14_table_kept']
 RULE = ("random histories (4..10 operations) on one Bycycle object: construct (both burst methods, both centrings, thresholds given with full or SHORTHAND names or None, "
         "find_extrema_kwargs, return_samples) / fit on one of three signals / recompute_edges(reduction) / load / in-place threshold edit / threshold rebinding / burst option edit / "
         "attribute access; after every fit df_features must equal compute_features called on FRESH copies of the object's current settings (shorthand expanded), after "
         "recompute_edges(r) the functional recompute_edges with every *_threshold lowered by r, attribute access must return the table's columns, and the dictionaries held by "
-        "the object must be unchanged by fit / recompute; the driver's Lean expandShorthand / reduceThresholds are compared with the object's; "
-        "distinct = distinct histories; non-trivial = at least two fits or a fit after an edit")
-ASSUMPTIONS = ["BycycleGroup.models positions are covered by C11 / C12"]
+        "the object must be unchanged by fit / recompute; the driver's Lean expandShorthand / reduceThresholds are compared with the object's; the whole history is also run through the Lean object machine (obj.trace): outcome, stored dictionaries, stored signal after every operation, and the table must equal the model's provenance term (cf / rc / loaded) evaluated with the functional API (histories include 2-D fits, reads of absent attributes, edge recomputation without a table, rebinding to shorthand names); "
+        "BycycleGroup: fits (and refits on arrays of another shape) of 2-D / 3-D arrays of pairwise different signals, models[i][j] against sigs[i, j] and df_features[i][j]; distinct = distinct histories; non-trivial = at least two fits or a fit after an edit")
+ASSUMPTIONS = ["that df_features of a group sit at the position of their signal is C11 / C12; here models are compared with df_features and sigs position by position"]
 BATCH = 15
 FULL_C = ['amp_fraction_threshold', 'amp_consistency_threshold', 'period_consistency_threshold', 'monotonicity_threshold']
 
@@ -25,6 +25,85 @@ def _signals(seed):
 
 def _kv(d):
     return '[' + ','.join('[%s,%s]' % (k, proto.enc_rat(v)) for k, v in d.items()) + ']'
+
+
+FEKS = {0: {'filter_kwargs': {'n_cycles': 3}}, 1: {'filter_kwargs': {'n_cycles': 4}, 'boundary': 5}}
+
+def _dec_kv(v):
+    return {k: Fraction(q) for k, q in v}
+
+def _same_kv(model, real):
+    m = _dec_kv(model)
+    return set(m) == set(real) and all(abs(m[k] - Fraction(real[k])) <= Fraction(1, 10**12) for k in m)     # (0.8 the float vs 4/5 the literal)
+
+def _num(k, q):
+    return int(q) if (k == 'min_n_cycles' and q.denominator == 1) else float(q)
+
+def _model_trace(c, obs, loaded, sigs, fs, fr):
+    """the Lean object machine (BycycleModel/ObjMachine.lean, symbolic instance ObjTrace.lean) run on the same history: outcome, stored
+    dictionaries, stored signal and table after every operation; the table is the model's provenance term evaluated with the functional API."""
+    from bycycle.features import compute_features
+    from bycycle.burst import recompute_edges as rc_edges
+    if not obs: return None
+    memo = {}
+    def cf(st, x):
+        key = ('cf', repr(st), x)
+        if key not in memo:
+            peak, cyc, bk, th, fek, rs = st
+            try:
+                memo[key] = implutil.quiet(compute_features, sigs[int(x)], fs, fr, center_extrema='peak' if peak == 'T' else 'trough', burst_method='cycles' if cyc == 'T' else 'amp',
+                                           burst_kwargs={k: _num(k, Fraction(q)) for k, q in bk}, threshold_kwargs={k: _num(k, Fraction(q)) for k, q in th},
+                                           find_extrema_kwargs=copy.deepcopy(FEKS[int(fek)]), return_samples=(rs == 'T'))
+            except Exception as e:
+                memo[key] = e
+        return memo[key]
+    def ev(t):
+        if t == 'None': return None
+        key = repr(t)
+        if key in memo: return memo[key]
+        if t[0] == 'cf': r = cf(t[1], t[2])
+        elif t[0] == 'loaded': r = loaded[int(t[1])]
+        else:
+            base = ev(t[1])
+            try:
+                r = implutil.quiet(rc_edges, base.copy(deep=True), {k: _num(k, Fraction(q)) for k, q in t[2]})
+            except Exception as e:
+                r = e
+        memo[key] = r
+        return r
+    th0 = 'None' if c['th'] is None else _kv(c['th'])
+    head = 'obj.trace %s %s None %s %s %s ' % (proto.enc_bool(c['center'] == 'peak'), proto.enc_bool(c['method'] == 'cycles'), th0,
+                                              'None' if c['fek'] is None else '1', proto.enc_bool(c['rs']))
+    flags = [True] * len(obs)
+    for _ in range(len(obs) + 1):
+        tr = proto.run_driver([head + '[' + ','.join('[%s,%s]' % (m, proto.enc_bool(f)) for (m, _, _), f in zip(obs, flags)) + ']'])[0]
+        if not isinstance(tr, list) or (tr and tr[0] == 'bad-request'): return 'driver refused the history: %r' % (tr,)
+        changed = False
+        for i, (m, outcome, _) in enumerate(obs):
+            pre = tr[i]                      # state before operation i (entry 0 = constructed)
+            want = True
+            if m.startswith('[fit,') and m != '[fit,100]':
+                want = not isinstance(cf(pre[1], m[5:-1]), Exception)
+            elif m.startswith('[edges,') and pre[3] != 'None':
+                want = flags[i] and not isinstance(ev(tr[i + 1][3]), Exception)      # (the rc term carries the MODEL's lowered thresholds)
+            elif m.startswith('[attr,') and pre[3] != 'None':
+                t = ev(pre[3]); want = (not isinstance(t, Exception)) and m[6:-1] in t.columns
+            if want != flags[i]:
+                flags[i] = want; changed = True; break
+        if not changed: break
+    for i, (m, outcome, (th, bk, j, has_sig, df)) in enumerate(obs):
+        out, st, sg, term = tr[i + 1]
+        if out != outcome: return 'operation %d %s: object %s, model %s' % (i, m, outcome, out)
+        if not _same_kv(st[3], th): return 'after operation %d %s the stored thresholds are %r, model %r' % (i, m, th, st[3])
+        if not _same_kv(st[2], bk): return 'after operation %d %s the stored burst_kwargs are %r, model %r' % (i, m, bk, st[2])
+        if (sg == 'None') != (not has_sig) or (sg not in ('None', '100') and j is not None and int(sg) != j): return 'after operation %d %s the stored signal is %r, model %s' % (i, m, j, sg)
+        exp = ev(term)
+        if (exp is None) != (df is None) or (df is not None and (isinstance(exp, Exception) or not df.equals(exp))):
+            return 'after operation %d %s the table is not the model\'s %s evaluated with the functional API' % (i, m, proto_render(term)[:160])
+    return None
+
+def proto_render(t):
+    return t if isinstance(t, str) else '[' + ','.join(proto_render(x) for x in t) + ']'
 
 def corpus(ctx):
     # pre-fix E: a re-fit after thresholds['min_n_cycles'] = 6 used the stale value (amp method)
@@ -45,7 +124,7 @@ def generate(ctx):
             th = None if u < 0.15 else {('burst_fraction' if rng.random() < 0.5 else 'burst_fraction_threshold'): float(rng.choice([0.5, 0.8, 1.0])), 'min_n_cycles': int(rng.choice([1, 3]))}
         ops = []
         for _ in range(int(rng.integers(4, 11))):
-            k = str(rng.choice(['fit', 'fit', 'fit', 'edges', 'edit', 'rebind', 'editbk', 'attr', 'load']))
+            k = str(rng.choice(['fit', 'fit', 'fit', 'edges', 'edges', 'edit', 'rebind', 'editbk', 'attr', 'attrkey', 'load', 'fit2d', 'rebind_short']))
             if k == 'fit': ops.append(['fit', int(rng.integers(3))])
             elif k == 'edges': ops.append(['edges', [None, 0.1, 0.3][int(rng.integers(3))]])
             elif k == 'edit':
@@ -54,10 +133,44 @@ def generate(ctx):
             elif k == 'rebind': ops.append(['rebind', int(rng.integers(1 << 20))])
             elif k == 'editbk': ops.append(['editbk', int(rng.choice([1, 2, 5]))])
             elif k == 'attr': ops.append(['attr'])
+            elif k == 'attrkey': ops.append(['attrkey', str(rng.choice(['period', 'is_burst', 'sample_peak', 'sample_trough', 'volt_amp', 'burst_fraction', 'monotonicity', 'no_such_column']))])
+            elif k == 'fit2d': ops.append(['fit2d'])
+            elif k == 'rebind_short': ops.append(['rebind_short', float(rng.choice([0.3, 0.6]))])
             else: ops.append(['load', int(rng.integers(3))])
         cases.append(dict(seed=int(rng.integers(1 << 30)), method=method, center=str(rng.choice(['peak', 'trough'])), th=th,
                           fek=(None if rng.random() < 0.6 else {'filter_kwargs': {'n_cycles': 4}, 'boundary': 5}), rs=bool(rng.random() < 0.8), ops=ops))
+    # BycycleGroup: models mirror df_features and sigs position by position (pairwise different signals, refits on other shapes)
+    for i in range(ctx.scale(8, 60)):
+        fits = [dict(shape=[int(rng.integers(1, 4))] if rng.random() < 0.35 else [int(rng.integers(1, 4)), int(rng.integers(1, 4))], n_jobs=int(rng.choice([1, 2])))
+                for _ in range(int(rng.integers(1, 3)))]
+        for f in fits:
+            f['axis'] = (str(rng.choice(['0', 'None'])) if len(f['shape']) == 1 else str(rng.choice(['0', '1', 'a01', 'a01'])))
+        cases.append(dict(kind='group', seed=int(rng.integers(1 << 30)), center=str(rng.choice(['peak', 'trough'])), fits=fits))
     return cases
+
+def _group(c):
+    """BycycleGroup.fit (possibly repeated on another array): models[i](/[j]) holds sigs[i](/[i, j]) and the table at the same position of df_features."""
+    from bycycle import BycycleGroup
+    bg = implutil.quiet(BycycleGroup, center_extrema=c['center'], thresholds={'min_n_cycles': 2})
+    for k, f in enumerate(c['fits']):
+        shp = f['shape']
+        sigs = np.zeros(tuple(shp) + (500,))
+        for idx in np.ndindex(*shp):
+            sigs[idx] = gen.make_signal(np.random.default_rng([c['seed'], k] + list(idx)), family=['bursty', 'sum', 'asym'][sum(idx) % 3], fs=250, f0=10, n=500)['sig']
+        axis = {'0': 0, '1': 1, 'a01': (0, 1), 'None': None}[f['axis']]
+        try:
+            implutil.quiet(bg.fit, sigs, 250, (7.0, 13.0), axis=axis, n_jobs=f['n_jobs'])
+        except Exception as e:
+            return 'BycycleGroup.fit raised %s: %s' % (type(e).__name__, str(e)[:80])
+        if len(bg.models) != shp[0] or len(bg.df_features) != shp[0]: return 'fit %d: models / df_features do not have one entry per signal' % k
+        for idx in np.ndindex(*shp):
+            m = bg.models[idx[0]] if len(shp) == 1 else bg.models[idx[0]][idx[1]]
+            t = bg.df_features[idx[0]] if len(shp) == 1 else bg.df_features[idx[0]][idx[1]]
+            if not np.array_equal(m.sig, sigs[idx]): return 'fit %d: models%s.sig is not sigs%s' % (k, list(idx), list(idx))
+            if m.df_features is not t and not m.df_features.equals(t): return 'fit %d: models%s.df_features is not df_features%s' % (k, list(idx), list(idx))
+            if bg[idx[0]] is not bg.models[idx[0]]: return 'fit %d: indexing the group does not return its models' % k
+            if (m.fs, tuple(m.f_range), m.center_extrema) != (250, (7.0, 13.0), c['center']): return 'fit %d: models%s does not carry the settings of the group' % (k, list(idx))
+    return None
 
 def evaluate(ctx, cases):
     from bycycle import Bycycle
@@ -67,6 +180,9 @@ def evaluate(ctx, cases):
     reqs, marks = [], []
     results = []
     for c in cases:
+        if c.get('kind') == 'group':
+            msg = _group(c)
+            results.append((msg is None, True, dict(judge=msg) if msg else {}, None)); ctx.hist('fits', 'group'); continue
         sigs = _signals(c['seed']); fs, fr = 250, (7.0, 13.0)
         info = {}; ok = True; corr = True
         def fail(msg):
@@ -84,19 +200,29 @@ def evaluate(ctx, cases):
         if c['th'] is not None:
             exp_req = ('objs.expand ' + _kv(c['th']), dict(bm.thresholds))
         nfit = 0; edited_before_fit = False; last_sig = None
+        obs = []; loaded = {}                 # per executed operation: (model op, outcome, snapshot of the object)
+        def snap():
+            j = next((k for k in range(3) if bm.sig is sigs[k]), None) if bm.sig is not None else None
+            return (copy.deepcopy(bm.thresholds), copy.deepcopy(bm.burst_kwargs), j, bm.sig is not None, None if bm.df_features is None else bm.df_features.copy(deep=True))
         def attr_check(where):
             if bm.df_features is not None:
                 for col in list(bm.df_features.columns)[:4] + list(bm.df_features.columns)[-2:]:
                     if not np.array_equal(np.asarray(getattr(bm, col)), bm.df_features[col].values, equal_nan=True):
                         fail('after %s attribute %s is not the column of the current table' % (where, col)); return
-        for op in c['ops']:
+        for opi, op in enumerate(c['ops']):
             if not ok: break
+            mop, outcome = None, 'done'
             if op[0] in ('fit', 'edges', 'load'):
                 attr_check('the operations before ' + repr(op))      # read (and possibly cache) before the table is replaced
             try:
                 if op[0] == 'fit':
                     held = copy.deepcopy((bm.thresholds, bm.burst_kwargs, bm.find_extrema_kwargs))
-                    implutil.quiet(bm.fit, sigs[op[1]], fs, fr); nfit += 1; last_sig = op[1]
+                    mop = '[fit,%d]' % op[1]
+                    try:
+                        implutil.quiet(bm.fit, sigs[op[1]], fs, fr); nfit += 1; last_sig = op[1]
+                    except Exception:
+                        if all(str(k).endswith('_threshold') or k == 'min_n_cycles' for k in bm.thresholds): raise
+                        outcome = 'raised'; obs.append((mop, outcome, snap())); continue     # (unknown threshold names after a shorthand rebinding)
                     if copy.deepcopy((bm.thresholds, bm.burst_kwargs, bm.find_extrema_kwargs)) != held and repr((bm.thresholds, bm.burst_kwargs, bm.find_extrema_kwargs)) != repr(held):
                         fail('fit modified the option dictionaries held by the object')
                     exp = implutil.quiet(compute_features, sigs[op[1]], fs, fr, center_extrema=bm.center_extrema, burst_method=bm.burst_method,
@@ -105,7 +231,14 @@ def evaluate(ctx, cases):
                     if not bm.df_features.equals(exp):
                         fail('after %r the fit does not equal compute_features with the current settings' % (c['ops'][:c['ops'].index(op) + 1],))
                 elif op[0] == 'edges':
-                    if bm.df_features is None or bm.burst_method != 'cycles' or not bm.return_samples: continue
+                    mop = '[edges,%s]' % proto.enc_opt(op[1])
+                    if bm.df_features is None or bm.burst_method != 'cycles' or not bm.return_samples or 'is_burst' not in bm.df_features.columns \
+                            or not all(str(k).endswith('_threshold') or k == 'min_n_cycles' for k in bm.thresholds):
+                        try:
+                            implutil.quiet(bm.recompute_edges, op[1])
+                        except Exception:
+                            outcome = 'raised'
+                        obs.append((mop, outcome, snap())); continue
                     prev = bm.df_features.copy(deep=True); th_before = copy.deepcopy(bm.thresholds)
                     red = bm.reduce_thresholds(op[1])
                     reqs.append('objs.reduce %s %s' % (_kv(th_before), proto.enc_opt(op[1]))); marks.append((len(results), dict(red)))
@@ -123,14 +256,34 @@ def evaluate(ctx, cases):
                     elif exp_err is None and not bm.df_features.equals(exp):
                         fail('recompute_edges(%r) differs from the functional edge recomputation with lowered thresholds' % op[1])
                     if bm.thresholds != th_before: fail('recompute_edges modified the stored thresholds')
+                    outcome = 'raised' if got_err else 'done'
                 elif op[0] == 'edit':
                     if isinstance(bm.thresholds, dict): bm.thresholds[op[1]] = op[2]
+                    mop = '[edit,%s,%s]' % (op[1], proto.enc_rat(op[2]))
+                elif op[0] == 'rebind_short':
+                    bm.thresholds = {'monotonicity': op[1], 'min_n_cycles': 2} if bm.burst_method == 'cycles' else {'burst_fraction': op[1], 'min_n_cycles': 2}
+                    mop = '[rebind,%s]' % _kv(bm.thresholds)
+                elif op[0] == 'fit2d':
+                    mop = '[fit,100]'
+                    try:
+                        implutil.quiet(bm.fit, np.vstack([sigs[0], sigs[1]]), fs, fr); fail('fit accepted a 2-D array')
+                    except ValueError:
+                        outcome = 'raised'
+                elif op[0] == 'attrkey':
+                    mop = '[attr,%s]' % op[1]
+                    try:
+                        v = getattr(bm, op[1]); outcome = 'column'
+                        if not np.array_equal(np.asarray(v), bm.df_features[op[1]].values, equal_nan=True): fail('attribute %s is not the column of the current table' % op[1])
+                    except AttributeError:
+                        outcome = 'raised'
                 elif op[0] == 'rebind':
                     r = np.random.default_rng(op[1])
                     bm.thresholds = ({k: float(r.choice([0.1, 0.4, 0.6])) for k in FULL_C} | {'min_n_cycles': int(r.choice([1, 3]))}) if bm.burst_method == 'cycles' \
                         else {'burst_fraction_threshold': float(r.choice([0.5, 1.0])), 'min_n_cycles': int(r.choice([1, 3]))}
+                    mop = '[rebind,%s]' % _kv(bm.thresholds)
                 elif op[0] == 'editbk':
-                    if bm.burst_method == 'amp': bm.burst_kwargs['min_n_cycles'] = op[1]
+                    if bm.burst_method == 'amp':
+                        bm.burst_kwargs['min_n_cycles'] = op[1]; mop = '[editbk,min_n_cycles,%d]' % op[1]
                 elif op[0] == 'attr':
                     if bm.df_features is not None:
                         for col in list(bm.df_features.columns)[:6]:
@@ -139,10 +292,17 @@ def evaluate(ctx, cases):
                     df = implutil.quiet(compute_features, sigs[op[1]], fs, fr, threshold_kwargs={})
                     bm.load(df, sigs[op[1]], fs, fr)
                     if bm.df_features is not df: fail('load did not store the given table')
+                    loaded[opi] = df.copy(deep=True); mop = '[load,%d,%d]' % (opi, op[1])
             except Exception as e:
                 fail('operation %r raised %s: %s' % (op, type(e).__name__, str(e)[:80]))
+            if ok and mop is not None:
+                obs.append((mop, outcome, snap()))
             if ok and op[0] in ('fit', 'edges', 'load'):
                 attr_check(repr(op))
+        if ok:
+            md = _model_trace(c, obs, loaded, sigs, fs, fr)
+            if md:
+                corr = False; info['model'] = md
         results.append((ok, corr, info, exp_req))
         ctx.hist('fits', min(nfit, 4))
     # driver comparisons
@@ -166,6 +326,6 @@ def evaluate(ctx, cases):
         ok, corr, info, _ = r
         if i in bad:
             corr = False; ok = False; info.setdefault('judge', bad[i]); info['model'] = bad[i]
-        nfit = sum(1 for o in c['ops'] if o[0] == 'fit')
+        nfit = 2 if c.get('kind') == 'group' else sum(1 for o in c['ops'] if o[0] == 'fit')
         out.append(Result(c, judge_ok=ok, corr_ok=corr and ok, sig=repr(c), nontrivial=nfit >= 2, info=info))
     return out
